@@ -9,14 +9,14 @@ Local Open Scope string_scope.
    JSON tree, so it returns [ROk], [RErr] or [RUnsup] on every tree, for every kind — there is no
    stuck or diverging case.  (Bytes that are not JSON never reach the package: json.Unmarshal
    validates first.) *)
-Theorem C07_total : forall j t, exists r, norm gen_env j t = r.
-Proof. exact (fun j t => ex_intro _ (norm gen_env j t) eq_refl). Qed.
+Theorem C07_total : forall j t, exists r, norm gen_env false j t = r.
+Proof. exact (fun j t => ex_intro _ (norm gen_env false j t) eq_refl). Qed.
 Print Assumptions C07_total.
 
 (* The full idempotence statement, not yet proved for every kind (DESIGN.md): *)
 Definition C07_statement (no_casefold_clash : string -> json -> bool) : Prop :=
   forall k j j1, no_casefold_clash k j = true ->
-    norm gen_env j (TNamed k) = ROk j1 -> norm gen_env j1 (TNamed k) = ROk j1.
+    norm gen_env false j (TNamed k) = ROk j1 -> norm gen_env false j1 (TNamed k) = ROk j1.
 
 (* Checked by evaluation on the shapes that used to break it (finding F4 and relatives), and on a
    nested document: the second normalisation reproduces the first, member for member. *)
@@ -25,14 +25,14 @@ Example C07_fixed_points :
                 JObj [("type", JArr [JStr "string"])]; JObj [("additionalProperties", JStr "x")];
                 JObj [("properties", JObj [("b", JObj [("x-order", JNum 1 0)]); ("a", JObj [("x-order", JNum 1 0)])]);
                       ("x-B", JObj [("b", JNum 1 0); ("a", JNull)]); ("$ref", JStr "HTTP://H:80//a#/x")] ] in
-  forallb (fun j => match norm gen_env j (TNamed "Schema") with
-                    | ROk j1 => match norm gen_env j1 (TNamed "Schema") with ROk j2 => json_eqb j1 j2 | _ => false end
+  forallb (fun j => match norm gen_env false j (TNamed "Schema") with
+                    | ROk j1 => match norm gen_env false j1 (TNamed "Schema") with ROk j2 => json_eqb j1 j2 | _ => false end
                     | _ => false end) docs = true.
 Proof. vm_compute. reflexivity. Qed.
 
 (* Known finding on the current tree (F4b): an `items` that is neither an object nor an array decodes to
    an empty union, encodes as null, and disappears at the next round: the first encoding is not a fixed point. *)
 Example C07_refuted_items_scalar :
-  norm gen_env (JObj [("items", JBool true)]) (TNamed "Schema") = ROk (JObj [("items", JNull)])
-  /\ norm gen_env (JObj [("items", JNull)]) (TNamed "Schema") = ROk (JObj []).
+  norm gen_env false (JObj [("items", JBool true)]) (TNamed "Schema") = ROk (JObj [("items", JNull)])
+  /\ norm gen_env false (JObj [("items", JNull)]) (TNamed "Schema") = ROk (JObj []).
 Proof. vm_compute. split; reflexivity. Qed.
